@@ -21,7 +21,7 @@ import (
 	"crypto/sha256"
 	"net/http"
 
-	"github.com/dadrus/heimdall/internal/x/stringx"
+	"github.com/dadrus/heimdall/internal/x/hashx"
 )
 
 type BasicAuth struct {
@@ -38,8 +38,8 @@ func (c *BasicAuth) Apply(_ context.Context, req *http.Request) error {
 func (c *BasicAuth) Hash() []byte {
 	hash := sha256.New()
 
-	hash.Write(stringx.ToBytes(c.User))
-	hash.Write(stringx.ToBytes(c.Password))
+	hashx.WriteString(hash, c.User)
+	hashx.WriteString(hash, c.Password)
 
 	return hash.Sum(nil)
 }
